@@ -86,17 +86,19 @@ def defects(draw, design):
            "read_child_wire", "write_child_wire", "write_own_inport", "write_child_outport", "child_out_to_own_in",
            "loopback_inside", "two_levels", "op_eq_update", "op_ilshift_update", "op_eq_ff", "op_imatmul_ff",
            "ff_slice", "ff_field", "op_second_eq_update", "op_second_ilshift_update", "op_second_imatmul_ff",
-           "op_second_eq_ff", "deep_conflict", "deep_conflict", "deep_disjoint_legal"]
+           "op_second_eq_ff", "deep_conflict", "deep_conflict", "deep_disjoint_legal",
+           "const_own_inport", "const_child_outport", "const_child_wire", "const_grandchild_inport", "const_legal"]
   kind = draw(st.sampled_from(kinds))
   if kind == "none": return None
   cns = sorted(design["classes"])
-  if kind in ("read_child_wire", "write_child_wire", "write_child_outport", "child_out_to_own_in", "two_levels"):
+  if kind in ("read_child_wire", "write_child_wire", "write_child_outport", "child_out_to_own_in", "two_levels",
+              "const_child_outport", "const_child_wire", "const_grandchild_inport", "const_legal"):
     cns = [x for x in cns if design["classes"][x]["children"]] or cns
-    if kind == "two_levels":
+    if kind in ("two_levels", "const_grandchild_inport"):
       cns = [x for x in cns if any(design["classes"][cc]["children"] for _, cc in design["classes"][x]["children"])] or cns
     if kind == "child_out_to_own_in":
       cns = [x for x in cns if x != design["top"]] or cns
-  if kind in ("loopback_inside",):
+  if kind in ("loopback_inside", "const_own_inport"):
     cns = [x for x in cns if x != design["top"]] or cns
   cn = draw(st.sampled_from(cns))
   c = design["classes"][cn]
@@ -259,6 +261,43 @@ def defects(draw, design):
     d["raw_groups"].append([f"connect( s.far, s.{iname}.{gname}.{n} )"])
     d["expect"] = [ST]; d["nontrivial"] = True
     return d
+  if kind.startswith("const_"):
+    # a constant tied to a fresh port / wire from a position the port rules forbid (own InPort of a non-top
+    # component, a child's OutPort or Wire, a grandchild's InPort) - or, for const_legal, from the allowed ones.
+    # The fresh signal has no other driver, so the position is the only defect.
+    cw = draw(st.integers(1, 8)); cv = draw(st.integers(0, (1 << cw) - 1))
+    val = draw(st.sampled_from([str(cv), f"Bits{cw}({cv})"]))
+    conn = lambda a: [draw(st.sampled_from([f"{a} //= {val}", f"connect( {a}, {val} )", f"connect( {val}, {a} )"]))]
+    d["extra"] = {}
+    if kind == "const_own_inport":
+      if cn == design["top"]: return None
+      d["raw_decl"].append(f"s.cinp = InPort( Bits{cw} )")
+      d["raw_groups"].append(conn("s.cinp")); d["expect"] = [ST]; d["nontrivial"] = True
+      return d
+    ch = [(iname, ccn) for iname, ccn in c["children"]]
+    if not ch: return None
+    iname, ccn = draw(st.sampled_from(ch))
+    if kind == "const_grandchild_inport":
+      gch = design["classes"][ccn]["children"]
+      if not gch: return None
+      gname, gcn = draw(st.sampled_from(gch))
+      if gcn in (cn, ccn): return None
+      d["extra"][gcn] = {"raw_decl": [f"s.cinp = InPort( Bits{cw} )"], "raw_groups": []}
+      d["raw_groups"].append(conn(f"s.{iname}.{gname}.cinp")); d["expect"] = [ST]; d["nontrivial"] = True
+      return d
+    if ccn == cn: return None
+    if kind == "const_legal":
+      # parent ties a child's fresh InPort, its own fresh OutPort and its own fresh Wire to constants: all allowed
+      d["extra"][ccn] = {"raw_decl": [f"s.cinp = InPort( Bits{cw} )"], "raw_groups": []}
+      d["raw_decl"] += [f"s.coutp = OutPort( Bits{cw} )", f"s.cwire = Wire( Bits{cw} )"]
+      for a in (f"s.{iname}.cinp", "s.coutp", "s.cwire"):
+        if draw(st.integers(0, 3)) > 0: d["raw_groups"].append(conn(a))
+      d["expect"] = []; d["legal"] = True; d["nontrivial"] = True
+      return d
+    decl = f"s.cport = OutPort( Bits{cw} )" if kind == "const_child_outport" else f"s.cport = Wire( Bits{cw} )"
+    d["extra"][ccn] = {"raw_decl": [decl], "raw_groups": []}
+    d["raw_groups"].append(conn(f"s.{iname}.cport")); d["expect"] = [ST]; d["nontrivial"] = True
+    return d
   # operator checks: on a fresh wire
   if kind in ("deep_conflict", "deep_disjoint_legal"):
     # a wire of a three-level nested struct type (PRELUDE) with two drivers at different depths of one path
@@ -338,6 +377,10 @@ def apply_defect(design, defect):
   c = d["classes"][defect["cls"]]
   c["raw_decl"] = list(defect["raw_decl"])
   c["raw_groups"] = [list(g) for g in defect["raw_groups"]]
+  for cn2, x in (defect.get("extra") or {}).items():           # declarations the defect needs in other classes
+    c2 = d["classes"][cn2]
+    c2["raw_decl"] = list(c2.get("raw_decl", [])) + list(x["raw_decl"])
+    c2["raw_groups"] = [list(g) for g in c2.get("raw_groups", [])] + [list(g) for g in x["raw_groups"]]
   return d
 
 
